@@ -105,6 +105,59 @@ class C20(Prop):
         names = lang.variables(f)
         return {'formula': f, 'data': lang.gen_trace(rng, names, n)}
 
+    def shrinkable(self, case):
+        return not case.get('modular')
+
+    def gen_shared_name(self, rng):
+        """A named sub-specification (one predicate) referenced from several places of one assertion, under different
+        temporal windows and next to predicates over another variable: each reference has its own incoming
+        intervals, which may fall between the segments another reference was explained over."""
+        n = rng.randint(5, 9)
+        pdef = lang.N(rng.choice(['geq', 'leq', 'gt', 'lt']), lang.V('x'), lang.C(rng.choice([0.0, 1.0])))
+        ref = lang.V('sa')
+
+        def leaf():
+            if rng.random() < 0.3:
+                base = lang.N(rng.choice(['geq', 'leq']), lang.V('y'), lang.C(rng.choice([0.0, 1.0])))
+                return lang.N(rng.choice(['or', 'and', 'implies']), *rng.sample([ref, base], 2))
+            return ref
+
+        def window(g):
+            o = rng.choice(['eventually', 'always', 'once', 'historically', 'eventually', 'always'])
+            r = rng.random()
+            if r < 0.25:
+                return lang.N(o, g)
+            a = rng.randint(0, 3)
+            return lang.N(o, g, ivl=(a, rng.choice([a, a + 1, a + 3, n - 1])))
+        vals = [-2.0, -1.0, 1.0, 2.0, 0.0, 3.0]
+        if rng.random() < 0.6:
+            # coherent template: a wide `always` over (name or rescue) is violated on several disjoint stretches (where
+            # neither the name nor the rescue holds); a narrow window elsewhere refers to the name again
+            q = lang.N(rng.choice(['geq', 'gt']), lang.V('y'), lang.C(0.0))
+            wide = lang.N('always', lang.N('or', *rng.sample([ref, q], 2)), ivl=rng.choice([None, (0, n - 1), (0, n - 2)]))
+            k1 = rng.randint(1, n - 2)
+            narrow = lang.N(rng.choice(['eventually', 'always', 'eventually']), ref, ivl=(k1, rng.choice([k1, k1, k1 + 1])))
+            top = lang.N('or', *rng.sample([wide, narrow], 2))
+            f = lang.inline(top, [('sa', pdef)])
+            holds = {'geq': lambda x: x >= pdef[3][2], 'leq': lambda x: x <= pdef[3][2], 'gt': lambda x: x > pdef[3][2],
+                     'lt': lambda x: x < pdef[3][2]}[pdef[0]]
+            bad = [x for x in vals if not holds(x)] or [-2.0]
+            good = [x for x in vals if holds(x)] or [2.0]
+            xs = [rng.choice(bad) if rng.random() < 0.75 else rng.choice(good) for _ in range(n)]
+            ys = [rng.choice([1.0, 2.0]) if rng.random() < 0.35 else rng.choice([-1.0, -2.0]) for _ in range(n)]
+            data = {'x': xs, 'y': ys}
+        else:
+            top = window(leaf())
+            for _ in range(rng.randint(1, 2)):
+                top = lang.N(rng.choice(['or', 'and', 'implies', 'or']), *rng.sample([top, window(leaf())], 2))
+            f = lang.inline(top, [('sa', pdef)])
+            data = dict((k, [rng.choice(vals) for _ in range(n)]) for k in lang.variables(f))
+        names = lang.variables(f)
+        data = dict((k, data[k]) for k in names)
+        return {'formula': f, 'data': data,
+                'modular': {'top': lang.to_jsonable(top), 'defs': [['sa', lang.to_jsonable(pdef)]], 'consts': [],
+                            'style': rng.choice(['one-text', 'subspecs'])}}
+
     def gen_filtered(self, rng):
         """A temporal operator reached through Boolean filters under a range context:
         OUT( p1 B1 ( p2 B2 T(p3) ) ). The filters forward only the stretches where their other operand does not
@@ -152,7 +205,9 @@ class C20(Prop):
 
     def gen(self, rng, ctx):
         r = rng.random()
-        if r < 0.2:
+        if r < 0.12:
+            return self.gen_shared_name(rng)
+        if r < 0.3:
             return self.gen_filtered(rng)
         if r < 0.4:
             return self.gen_nested(rng)
@@ -188,8 +243,13 @@ class C20(Prop):
         if exp[0] != exp[0] or exp[0] == 0:
             v.skip = 'rho(0) is NaN or 0: no claim'
             return v
+        sd = {'text': text, 'vars': names}
+        if case.get('modular'):
+            from rtverif.props.c09 import modular_sd
+            sd = modular_sd(case['modular'], names)
+            v.info['class:modular'] = 1
         try:
-            m = drive.Mon('dt_off', {'text': text, 'vars': names})
+            m = drive.Mon('dt_off', sd)
             res = m.evaluate(drive.dt_dataset(data))
         except Exception as e:
             v.skip = 'evaluate raised %s' % type(e).__name__
@@ -208,6 +268,18 @@ class C20(Prop):
                 text, data, rho0, type(e).__name__, e), known)
             return v
         R = reported_positions(expl, names, n)
+        if rho0 > 0 and case.get('modular'):
+            # explain() covers every assertion of the specification, the named sub-specifications included: nothing
+            # may be reported only if none of them is violated at time 0 either
+            for nm, g in case['modular']['defs']:
+                g = lang.inline(lang.from_jsonable(g), [(a, lang.from_jsonable(b)) for a, b in case['modular']['defs']])
+                try:
+                    r = refd.evaluate(g, data, n)[0]
+                except refd.Undefined:
+                    r = float('nan')
+                if not r > 0:
+                    v.info['modular-satisfied-but-a-sub-specification-is-not'] = 1
+                    return v
         if rho0 > 0:
             if R:
                 v.bad('reported-when-satisfied', '%s data=%s: rho(0)=%r > 0 but explain() reports %s' % (
